@@ -7,7 +7,8 @@ outcome, final times) must equal the trace of the Coq model Sched.run on the sam
 Monitor (search oracle): during every update each pull succeeds and the source had published at or beyond the time
 actually requested from it."""
 from . import sched_common as sc
-from .sched_common import (TRUSTED, coq_obs, run_impl, shrink_candidates, distribution)  # noqa: F401
+from . import builtin_family as bf
+from .sched_common import (TRUSTED, coq_obs)  # noqa: F401
 
 # dense compositions are evaluated by FV.Sched (the model of the theorems) and by its generalisation FV.SchedSparse with
 # all publication periods 1; compositions with sparse publishers by FV.SchedSparse
@@ -89,10 +90,15 @@ def generate(rng, tier):
             cases.append(sc.gen_ring(rng))
     for i in range(40 if tier == "quick" else 1000):
         cases.append(sc.gen_sparse(rng))
+    # finam's own components with timedelta / calendar steps (monitor only)
+    for _ in range(16 if tier == "quick" else 300):
+        cases.append(bf.gen_builtin(rng))
     return cases
 
 
 def monitor(case, obs):
+    if "builtin" in case:
+        return bf.monitor_builtin(case, obs)
     comps = case["comps"]
     t0 = obs["t0"]
     if obs["phase"] != "run":
@@ -129,6 +135,8 @@ def monitor(case, obs):
 
 
 def nontrivial(case, obs):
+    if "builtin" in case:
+        return len(obs.get("mid_times", [])) >= 3
     comps = case["comps"]
     if sum(1 for c in comps if c["kind"] == "T") < 2:
         return False
@@ -141,5 +149,29 @@ def nontrivial(case, obs):
 
 
 classifiers = {
-    "shared_pull_component_nonmonotone_requests": lambda case, obs, failure: sc.nonmonotone_pull_component_requests(case, obs),
+    "shared_pull_component_nonmonotone_requests":
+        lambda case, obs, failure: "comps" in case and sc.nonmonotone_pull_component_requests(case, obs),
 }
+
+
+def model_applies(case):
+    return "builtin" not in case
+
+
+def run_impl(case):
+    if "builtin" in case:
+        return bf.run_builtin(case["builtin"])
+    return sc.run_impl(case)
+
+
+def shrink_candidates(case):
+    if "builtin" in case:
+        return
+    yield from sc.shrink_candidates(case)
+
+
+def distribution(cases, obss):
+    pairs = [(c, o) for c, o in zip(cases, obss) if "builtin" not in c]
+    d = sc.distribution([c for c, _ in pairs], [o for _, o in pairs])
+    d["builtin_component_cases"] = len(cases) - len(pairs)
+    return d
